@@ -48,9 +48,11 @@ VARIABLES pid,     \* index of the program of the batch this behaviour executes
           inp,     \* pure profile: the integer inputs bound to the parameters of the main function
           xlog,    \* length of the effect log when the exception that is propagating / escaped was raised
           xnode,   \* the node whose execution raised it (0 = none)
+          xfirst,  \* the node that raised the FIRST exception of the execution (0 = none); never reset
+          delx,    \* some `del` of an unbound variable has raised in this execution
           crossed, \* an exception has crossed an activation boundary (raised by a callee into its caller)
           oc       \* "outside the class": an exception raised by a call was caught by a handler of the caller
-vars == <<pid, ctrl, envs, cells, log, dec, status, cur, how, rd, wr, steps, inp, xlog, xnode, crossed, oc>>
+vars == <<pid, ctrl, envs, cells, log, dec, status, cur, how, rd, wr, steps, inp, xlog, xnode, xfirst, delx, crossed, oc>>
 
 P        == Progs[pid]
 ND(n)    == P.nodes[n]
@@ -380,6 +382,8 @@ Step ==
          cr == crossed \/ (how' = "exc" /\ NCalls(ctrl') < NCalls(ctrl) /\ status'[1] = "run") IN
      /\ xlog' = IF how' = "exc" /\ ~resumed THEN Len(log') ELSE xlog
      /\ xnode' = IF how' = "exc" /\ ~resumed THEN cur' ELSE xnode
+     /\ xfirst' = IF how' = "exc" /\ ~resumed /\ xfirst = 0 THEN cur' ELSE xfirst
+     /\ delx' = (delx \/ (how' = "exc" /\ ~resumed /\ cur' # 0 /\ ND(cur').kind = "del"))
      /\ crossed' = cr
      /\ oc' = (oc \/ (cr /\ how' = "exc" /\ status'[1] = "run" /\ ctrl'[Len(ctrl')].k = "handler"))
 
@@ -397,12 +401,12 @@ Init ==
                                 ELSE Unbound]
   /\ ctrl = << Frame("call", FN(1).body, 0, 1) >>
   /\ log = <<>> /\ dec = <<>> /\ status = <<"run", NoneV>> /\ cur = 0 /\ steps = 0 /\ how = ""
-  /\ rd = {} /\ wr = {} /\ xlog = 0 /\ xnode = 0 /\ crossed = FALSE /\ oc = FALSE
+  /\ rd = {} /\ wr = {} /\ xlog = 0 /\ xnode = 0 /\ xfirst = 0 /\ delx = FALSE /\ crossed = FALSE /\ oc = FALSE
 
 Spec == Init /\ [][Step]_vars
 DecBound == Len(dec) <= MaxDec      \* CONSTRAINT: executions consuming more decisions are not explored further
 
 Terminal == status[1] # "run"
 (* reporting invariant: one JSON line per complete execution *)
-Emit == Terminal => PrintT(ToJson([pid |-> pid, dec |-> dec, inp |-> inp, log |-> log, out |-> status, xlog |-> xlog, xnode |-> xnode, oc |-> oc]))
+Emit == Terminal => PrintT(ToJson([pid |-> pid, dec |-> dec, inp |-> inp, log |-> log, out |-> status, xlog |-> xlog, xnode |-> xnode, xfirst |-> xfirst, delx |-> delx, oc |-> oc]))
 =============================================================================
